@@ -178,6 +178,39 @@ fn c05_direct_and_except() {
     kani::cover!(UPDATE_TICKS[1] == 3, "all clients share the update tick");
 }
 
+// HARNESS: c05_late_joiner_two_pending_sets
+// PROPS: C05
+// TIER: quick
+// TIMEOUT: 1200
+// DRIVES: BufferedServerEvents::start_tick, BufferedServerEvents::insert, BufferedServerEvents::exclude_client, BufferedServerEvents::send_all
+// BOUNDS: one client that connects while TWO event sets are pending (an event buffered in an earlier frame, then a frame without events, no replication tick in between - manual / rate-limited tick policies); concrete scenario; unwind 8
+#[kani::proof]
+#[kani::unwind(8)]
+#[kani::stub(<bytes::Bytes as core::ops::Drop>::drop, noop_bytes_drop)]
+#[kani::stub(<bytes::Bytes as core::clone::Clone>::clone, bytes_clone)]
+#[kani::stub(log::max_level, log_off)]
+fn c05_late_joiner_two_pending_sets() {
+    let mut rows = [ClientRow::authorized(CLIENTS[0], 1200, None)];
+    rows[0].auth_mut().ticks.set_update_tick(RepliconTick::new(3));
+    let mut buffered = BufferedServerEvents::default();
+    buffered.start_tick();
+    buffered.insert(SendMode::Broadcast, 0, raw_event(0x41));
+    buffered.start_tick(); // a later frame of the same tick window, nothing sent in it
+    buffered.exclude_client(CLIENTS[0]); // the client connects now
+    let mut server = RepliconServer::default();
+    server.set_running(true);
+    buffered.send_all(&mut server, &Query::new(&mut rows)).unwrap();
+    // A client never receives an event that was sent before it connected.
+    let mut received = 0;
+    for _ in server.drain_sent() {
+        received += 1;
+    }
+    assert!(received == 0);
+    kani::cover!(received == 0, "late joiner got nothing");
+    kani::cover!(true, "scenario executed");
+    core::mem::forget((rows, buffered, server));
+}
+
 /// `get_bytes` for `first` and then for `second`, as `send_all` does for two clients with these
 /// update ticks: each client gets `postcard(its tick) ++ payload`.
 fn stamp_case(first: u32, second: u32) {
